@@ -52,6 +52,7 @@ class Explorer:
     self.trace = []         # ('d', cond, taken) | ('a', cond)
     self.nfresh = 0
     self.cache = {}         # per-path memo (sqrt/exp congruence)
+    self.known = {}         # per-path: literal id -> (term, truth value)
     self.warnings = []      # per-path: recorded warnings / events
     self.active = False
 
@@ -105,8 +106,13 @@ class Explorer:
       return True
     if z3.is_false(cond):
       return False
+    # a literal already decided on this path needs neither a fork nor a solver query
+    cid = cond.get_id()
+    if cid in self.known:
+      return self.known[cid][1]
     if self.pos < len(self.decisions):
       taken = self.decisions[self.pos][0]
+      assert taken != 'choice', 'non-deterministic replay'
     else:
       pc = self.pc()
       rt = self._sat(pc + [cond])
@@ -120,6 +126,9 @@ class Explorer:
       self.decisions.append([taken, flippable, aux])
     self.pos += 1
     self.trace.append(('d', cond, taken))
+    self.known[cid] = (cond, taken)
+    neg = z3.simplify(z3.Not(cond))
+    self.known[neg.get_id()] = (neg, not taken)
     return taken
 
   def aux_at_next(self):
@@ -129,18 +138,24 @@ class Explorer:
     return None
 
   def choose(self, n, name='choice'):
-    """Nondeterministic integer in [0, n): every value is explored (one fork each)."""
+    """Nondeterministic integer in [0, n): every value is explored (one path each).  The value is a
+    fresh unconstrained variable of that range, so every alternative is feasible: no solver query."""
     if n <= 0:
       raise ValueError('choose from empty range')
     if n == 1:
       return 0
     v = self.fresh(name, z3.IntSort())
-    self.trace.append(('a', z3.And(v >= 0, v < n)))
-    for k in range(n - 1):
-      if self.branch(v == k):
-        return k
-    self.trace.append(('a', v == n - 1))
-    return n - 1
+    if self.pos < len(self.decisions):
+      d = self.decisions[self.pos]
+      assert d[0] == 'choice' and d[2] == n, 'non-deterministic replay'
+      k = d[1]
+    else:
+      k = 0
+      self.decisions.append(['choice', 0, n])
+      STATS['forks'] += n - 1
+    self.pos += 1
+    self.trace.append(('a', v == k))
+    return k
 
   def concretize_int(self, t):
     """Solver-guided case split of an integer term into concrete values."""
@@ -173,6 +188,7 @@ class Explorer:
         self.trace = []
         self.nfresh = 0
         self.cache = {}
+        self.known = {}
         self.warnings = []
         self.active = True
         out = exc = None
@@ -190,13 +206,20 @@ class Explorer:
         if not aborted:
           STATS['paths'] += 1
           results.append(Path(self.pc(), out, exc, list(self.warnings),
-                              [d[0] for d in self.decisions[:self.pos]]))
+                              [d[1] if d[0] == 'choice' else d[0] for d in self.decisions[:self.pos]]))
           if len(results) > self.max_paths:
             raise Inconclusive('path budget %d exceeded in %s' % (self.max_paths, self.name))
         # backtrack
         del self.decisions[self.pos:]
         while self.decisions:
-          taken, flippable, aux = self.decisions[-1]
+          d = self.decisions[-1]
+          if d[0] == 'choice':
+            if d[1] < d[2] - 1:
+              d[1] += 1
+              break
+            self.decisions.pop()
+            continue
+          taken, flippable, aux = d
           if taken and flippable:
             self.decisions[-1] = [False, False, aux]
             break
